@@ -13,6 +13,11 @@ ROUND-0  round once, last: a value that was truncated (`int(e)`, `e // k`, `roun
 LOOP-0   a `for` loop can take a second trip: some path through its body comes back to the loop head.  A body that leaves on every path
          (`for s in sources: p = s.find(); if p: return p; return False`) looks at the first item only - a search that gives up
          after the first candidate, a broadcast that reaches one receiver.  (No loop of the repository is written that way today.)
+SWAP-0   a parameter is not handed into another parameter's slot: where a function passes its own parameter `p` to a callee (resolved by
+         name; all definitions of that name in mpf/ agree on their positional parameters) in the position - or under the keyword - of a
+         callee parameter with a different name, and the callee also has a parameter called `p`, two arguments were exchanged
+         (`play_with_config(cfg, start_time, start_step, ..., start_running)`).  Evaluated over the analysed functions and every function
+         of the property's anchor files; no call of the pinned tree has that shape (1574 bound arguments examined).
 NAME-0   delay names agree: a delay name (string constant) that a class cancels, checks or runs now is a name the class arms
          somewhere (its own methods or inherited ones).  A cancel under a name nobody arms cancels nothing.
 """
@@ -255,6 +260,100 @@ def loops_iterate(chk):
                    construct=ident, text="single-trip loop over " + src(lp.iter)[:50])
         n += 1
     chk.ob("LOOP-0", "every for loop of the analysed functions can take a second trip (%d functions)" % n, True, "mpf:1", nontrivial=False)
+
+
+_POS_SWAP = """
+class A:
+    def play_with_config(self, show_config, start_time=None, start_running=True, start_step=None):
+        return 1
+
+    def wrap(self, show_config, start_time=None, start_running=True, start_step=None):
+        return self.asset.play_with_config(show_config, start_time, start_step, start_running)
+"""
+
+
+def _fn_params(node):
+    a = node.args
+    ps = [x.arg for x in a.posonlyargs + a.args]
+    if ps and ps[0] in ("self", "cls"):
+        ps = ps[1:]
+    return ps, [x.arg for x in a.kwonlyargs]
+
+
+def _cross_bound(fn_node, sig_of):
+    """[(call, own parameter, callee parameter it lands in)]"""
+    fp, fk = _fn_params(fn_node)
+    own = set(fp) | set(fk)
+    out = []
+    if not own:
+        return out
+    for c in ast.walk(fn_node):
+        if not isinstance(c, ast.Call):
+            continue
+        nm = c.func.attr if isinstance(c.func, ast.Attribute) else (c.func.id if isinstance(c.func, ast.Name) else None)
+        cp = sig_of(nm) if nm else None
+        if not cp:
+            continue
+        args = list(c.args)
+        # Class.method(self, ...) : explicit self
+        if isinstance(c.func, ast.Attribute) and isinstance(c.func.value, ast.Name) and c.func.value.id[:1].isupper() and args and \
+                isinstance(args[0], ast.Name) and args[0].id in ("self", "cls"):
+            args = args[1:]
+        for i, a in enumerate(args):
+            if isinstance(a, ast.Starred) or i >= len(cp):
+                break
+            if isinstance(a, ast.Name) and a.id in own and a.id != cp[i] and a.id in cp:
+                out.append((c, a.id, cp[i]))
+        for k in c.keywords:
+            if k.arg and isinstance(k.value, ast.Name) and k.value.id in own and k.value.id != k.arg and k.value.id in cp and k.arg in cp:
+                out.append((c, k.value.id, k.arg))
+    return out
+
+
+def params_not_cross_bound(chk):
+    import json
+    import os
+    pos = ast.parse(_POS_SWAP).body[0]
+    psig = {"play_with_config": ("show_config", "start_time", "start_running", "start_step")}
+    if len(_cross_bound(pos.body[1], psig.get)) != 2:
+        chk.pending_errors.append("SWAP-0 detector does not match its positive example")
+    repo = chk.repo
+    sigs = getattr(repo, "_sig_by_name", None)
+    if sigs is None:
+        by = {}
+        for rel, m in repo.modules.items():
+            if not rel.startswith("mpf/") or "/tests/" in rel:
+                continue
+            for f in m.all_funcs():
+                by.setdefault(f.name, set()).add(tuple(_fn_params(f.node)[0]))
+        sigs = {k: next(iter(v)) for k, v in by.items() if len(v) == 1}
+        try:
+            repo._sig_by_name = sigs
+        except Exception:   # noqa
+            pass
+    idents = set(chk.funcs_analysed)
+    try:
+        here = os.path.dirname(os.path.dirname(os.path.abspath(__file__)))
+        for ln in open(os.path.join(here, "properties.jsonl")):
+            d = json.loads(ln)
+            if d["id"] == chk.prop:
+                for rel in d["anchors"]["files"]:
+                    if rel in repo.modules:
+                        idents |= {f.ident for f in repo.modules[rel].all_funcs()}
+    except OSError:
+        pass
+    n = 0
+    for ident in sorted(idents):
+        rel, qual = ident.split("::", 1)
+        f = repo.try_func(rel, qual)
+        if f is None:
+            continue
+        n += 1
+        for c, own, slot in _cross_bound(f.node, sigs.get):
+            chk.ob("SWAP-0", "a function hands its parameter on under that parameter's own name / position", False, "%s:%d" % (rel, c.lineno),
+                   detail="`%s` of %s is passed as `%s` of %s, which also has a parameter `%s`: two arguments exchanged" % (
+                       own, qual, slot, src(c.func)[-40:], own), construct=ident, text="parameter %s lands in slot %s of %s" % (own, slot, src(c.func)[-30:]))
+    chk.ob("SWAP-0", "no parameter of the analysed / anchored functions lands in another parameter's slot (%d functions)" % n, True, "mpf:1", nontrivial=False)
 
 
 _ARM = {"add", "reset", "add_if_doesnt_exist"}
